@@ -13,6 +13,9 @@ import (
 	_ "verifharness/internal/props/c11"
 	_ "verifharness/internal/props/c12"
 	_ "verifharness/internal/props/c13"
+	_ "verifharness/internal/props/c14"
+	_ "verifharness/internal/props/c16"
+	_ "verifharness/internal/props/c17"
 	_ "verifharness/internal/props/c18"
 	_ "verifharness/internal/props/c19"
 	_ "verifharness/internal/props/c20"
